@@ -229,9 +229,9 @@ def static_record(rid, req, resp, with_pos=False):
     if resp.get("in_ast") is None:
         rec["outcome"] = "noparse"
         return rec
-    rec["in"] = norm.normalise(resp["in_ast"], rp, code if with_pos else None)
+    rec["in"] = norm.encode(norm.normalise(resp["in_ast"], rp, code if with_pos else None))
     if content and resp.get("out_ast") is not None:
-        rec["out"] = norm.normalise(resp["out_ast"], rp, content if with_pos else None)
+        rec["out"] = norm.encode(norm.normalise(resp["out_ast"], rp, content if with_pos else None))
     else:
         rec["out"] = dict(NULLNODE)
     if content and resp.get("out_ast") is None:
